@@ -57,10 +57,11 @@ var catalogue = []catEntry{
 	{"tkt-flip", nil}, {"tkt-trunc", nil}, {"tkt-extend", nil},
 	{"auth-flip", nil}, {"auth-trunc", nil}, {"auth-extend", nil},
 	{"cname-mismatch", nil}, {"cname-extra-component", nil}, {"cname-empty", nil}, {"crealm-mismatch", nil},
+	{"pac-flipped", nil}, {"pac-wrongkey", nil}, {"pac-sigflipped", nil}, {"pac-truncated", nil}, {"pac-nosig", nil}, {"pac-noinfo", nil},
 }
 
 // valid variations that must be accepted (no defect): expressed as spec tweaks
-var variants = []string{"plain", "no-kvno-field", "no-starttime", "subkey", "seq", "cksum", "nametype", "addr-match", "addr-both", "old-kvno", "other-realm", "other-service", "replay", "fresh-auth"}
+var variants = []string{"plain", "pac-valid", "no-kvno-field", "no-starttime", "subkey", "seq", "cksum", "nametype", "addr-match", "addr-both", "old-kvno", "other-realm", "other-service", "replay", "fresh-auth"}
 
 type single struct {
 	defect  string
@@ -108,7 +109,7 @@ func Meta() core.Meta {
 		Rule:       "case = one run: a service (keytab parsed from reference-written bytes, settings from the tape) receives 1-6 AP-REQs minted by the reference implementation, each a valid request or one carrying 1-2 catalogue defects, presented at an instant placed exactly on / 1ns / 1us / 1s beside the time bound concerned; sweep = every single defect and valid variant x 6 etypes (thorough: x 72 settings combinations); distinct = distinct (settings, etype, defect set with argument, model verdict, outcome); non-trivial = at least one defect, a replay or a non-default setting involved",
 		SweepQuick: ns, SweepThorough: ns * len(settingsCombos()),
 		SeededQuick: 6000, SeededThorough: 400000,
-		WorkloadProbes: []string{"bound-plus-1ns", "bound-minus-1ns", "replayed", "pair-of-defects", "valid-accept-expected", "override-principal", "address-required"},
+		WorkloadProbes: []string{"bound-plus-1ns", "bound-minus-1ns", "replayed", "pair-of-defects", "valid-accept-expected", "override-principal", "address-required", "pac-valid", "pac-invalid-with-decoding-enabled", "pac-invalid-with-decoding-disabled", "old-then-fresh-then-replay"},
 		Components: map[string]string{
 			"messages.APReq.Unmarshal, service.VerifyAPREQ, APReq.Verify, Ticket.DecryptEncPart/Valid, keytab.Unmarshal/GetEncryptionKey, crypto (6 etypes), replay cache": "real",
 			"KDC and client that mint tickets/authenticators, attacker on the path":                                                                                        "stub: refkrb (independent DER + RFC 3961/3962/8009/4757 implementation)",
@@ -133,6 +134,8 @@ func fullKeytab() KtSpec {
 
 func applyVariant(p *Pres, v string, st *world.ServiceSettings, pres *[]Pres) {
 	switch v {
+	case "pac-valid":
+		p.Spec.PAC = "valid"
 	case "no-kvno-field":
 		p.Spec.KvnoField = false // newest key (kvno 2) sealed it
 	case "no-starttime":
@@ -191,7 +194,7 @@ func Gen(caseID, tier string) (json.RawMessage, error) {
 		if tier == "thorough" {
 			tp.Settings = combos[ci]
 		} else {
-			tp.Settings = world.ServiceSettings{SkewS: 300}
+			tp.Settings = world.ServiceSettings{SkewS: 300, DecodePAC: true}
 		}
 		p := Pres{Spec: baseSpec(et), ReplayOf: -1, ReuseTicket: -1, ThinkNs: 1000}
 		if s.defect != "" {
@@ -235,6 +238,21 @@ func Gen(caseID, tier string) (json.RawMessage, error) {
 	for i := 0; i < net; i++ {
 		tp.Keytab.Etypes = append(tp.Keytab.Etypes, etypes[perm[i]])
 	}
+	if r.Chance(1, 12) && tp.Settings.SkewS != 1 {
+		// history shape: an old but still acceptable authenticator A, a fresh B of the same client, a
+		// clean-up of the replay cache after A has aged out, then B again - which must still be a replay
+		et := tp.Keytab.Etypes[0]
+		mk := func() world.ReqSpec {
+			return world.ReqSpec{Client: "alice", Svc: tp.Keytab.Services[0], Realm: tp.Keytab.Realms[0], Kvno: tp.Keytab.Kvnos[len(tp.Keytab.Kvnos)-1], Etype: et, KvnoField: true, StartTime: true, LifeS: 36000}
+		}
+		a := mk()
+		a.Defects = []world.Defect{{Kind: "t-ctime-old", Arg: -second}}
+		sk := tp.Settings.Skew().Nanoseconds()
+		tp.Pres = []Pres{{Spec: a, ReplayOf: -1, ReuseTicket: -1, ThinkNs: 1000}, {Spec: mk(), ReplayOf: -1, ReuseTicket: -1, ThinkNs: second},
+			{Spec: mk(), ReplayOf: 1, ReuseTicket: -1, ThinkNs: sk - 4*second}}
+		tp.Settings.RequireAddr, tp.Settings.KtPrinc = false, ""
+		return core.MustJSON(tp), nil
+	}
 	np := r.Range(1, 6)
 	for i := 0; i < np; i++ {
 		p := Pres{ReplayOf: -1, ReuseTicket: -1}
@@ -263,6 +281,9 @@ func Gen(caseID, tier string) (json.RawMessage, error) {
 		}
 		if r.Chance(1, 3) {
 			p.Spec.Addrs = r.Pick("match", "other", "both")
+		}
+		if r.Chance(1, 4) {
+			p.Spec.PAC = r.Pick("valid", "valid", "flipped", "wrongkey", "sigflipped", "truncated", "nosig", "noinfo")
 		}
 		if r.Chance(1, 8) {
 			// a ticket for a service this keytab does not know
